@@ -86,28 +86,47 @@ def _one_control(job):
     tmp = tempfile.mkdtemp(prefix="qsa-mut-", dir="/var/tmp")
     try:
         _copy_tree(repo, tmp)
+        partial = False
         if kind == "patch":
-            r = subprocess.run(["patch", "-p1", "--batch", "--silent", "-d", tmp, "-i", payload], capture_output=True, text=True)
+            # strict application (no fuzz: a hunk that lands in another function would make the mutant a different change)
+            r = subprocess.run(["git", "apply", "--whitespace=nowarn", payload], capture_output=True, text=True, cwd=tmp)
             if r.returncode != 0:
                 entry["result"] = "skipped: patch does not apply to the current tree"
                 return entry
         else:
             for dtxt in payload:
-                # strict reverse application (no fuzz, no "unreversed patch" guessing): a fix that later commits built upon is skipped
+                # strict reverse application (no fuzz, no "unreversed patch" guessing) ...
                 r = subprocess.run(["git", "apply", "-R", "--whitespace=nowarn", "-"], input=dtxt, capture_output=True, text=True, cwd=tmp)
                 if r.returncode != 0:
-                    entry["result"] = "skipped: the fix can no longer be reverted on the current tree"
-                    return entry
+                    # ... and, where later commits touched some of its lines, the hunks that still apply strictly (the others are left out):
+                    # the control then only counts when the recorded rule reports the partially reverted tree
+                    r2 = subprocess.run(["git", "apply", "-R", "--reject", "--whitespace=nowarn", "-"], input=dtxt, capture_output=True, text=True, cwd=tmp)
+                    applied = (r2.stderr or "").count("Applied patch") + (r2.stderr or "").count("Hunk #") - (r2.stderr or "").count("Rejected hunk")
+                    for root, _d, files in os.walk(tmp):
+                        for fn in files:
+                            if fn.endswith(".rej"):
+                                os.unlink(os.path.join(root, fn))
+                    chk = subprocess.run(["git", "-C", tmp, "status", "--porcelain"], capture_output=True, text=True)
+                    if "Applied patch" not in (r2.stderr or "") and "cleanly" not in (r2.stderr or "") and applied <= 0:
+                        entry["result"] = "skipped: the fix can no longer be reverted on the current tree"
+                        return entry
+                    partial = True
         try:
             o = run_property(pid, "quick", tmp, 0, fixtures=False)
             got = {v.rule for v in o["violations"]}      # listed known findings do not count: the change must add a report
             entry["reported_rules"] = sorted(got)
             if kind == "patch":
                 entry["result"] = "detected" if (got & want if want else got) else "NOT DETECTED"
+            elif partial:
+                entry["result"] = "detected (partial revert: the hunks later commits left alone)" if (got & want) else \
+                                  "skipped: the fix can only be reverted in part on the current tree, and the part is not what the rule reports"
             else:
                 entry["result"] = "detected" if (got & want) else "NOT DETECTED"
         except AnalysisBroken as ex:
-            entry["result"] = "analysis broken on the %s: %s" % ("mutant" if kind == "patch" else "reverted tree", ex)
+            if partial:
+                entry["result"] = "skipped: the fix can only be reverted in part on the current tree, and the part alone does not compile"
+            else:
+                entry["result"] = "analysis broken on the %s: %s" % ("mutant" if kind == "patch" else "reverted tree", ex)
     finally:
         shutil.rmtree(tmp, ignore_errors=True)
     return entry
@@ -294,7 +313,7 @@ def main(argv=None):
             print("VIOLATION property=%s replay=%s" % (pid, path if not a.replay else a.replay))
         return 1
     if out.get("controls"):
-        det = sum(1 for c in out["controls"] if c.get("result") == "detected")
+        det = sum(1 for c in out["controls"] if str(c.get("result", "")).startswith("detected"))
         print("mutation controls: %d/%d seeded changes detected on a scratch copy (%d skipped)" % (
             det, len(out["controls"]), sum(1 for c in out["controls"] if str(c.get("result", "")).startswith("skipped"))))
     print("OK property=%s tier=%s (%.1fs)" % (pid, tier, out["wall"]))
